@@ -298,6 +298,19 @@ def json_agreement(prog, rep):
             okk = have is None or need <= have
             rep.check(okk, "JSON", "schemas/event.json", f"key {k}", f"admits {sorted(need)}", f"the schema restricts `{k}` to {sorted(have or [])} but the model ({'Id = ' + id_alias if k == 'id' else 'to_json_dict'}) emits {sorted(need)}: the JSON form of such an event no longer validates against the published schema", "aw_core/schemas/event.json", expected=sorted(need), found=sorted(have or []))
             extra = sorted(set(decl) - {"type", "format", "description", "title", "default", "examples", "$comment"})
+            if k == "timestamp" and "pattern" in decl:
+                # a pattern is data: it is matched (JSON-schema semantics: re.search) against the shapes datetime.isoformat()
+                # produces for a UTC, millisecond-floored instant -- with and without a fractional part
+                import re as _re
+
+                shapes = ["2024-05-17T12:00:27+00:00", "2024-05-17T12:00:27.870000+00:00", "1970-01-01T00:00:00+00:00", "2099-12-31T23:59:59.001000+00:00"]
+                try:
+                    rx = _re.compile(decl["pattern"])
+                    miss = [x for x in shapes if rx.search(x) is None]
+                except _re.error as ex_:
+                    miss = [f"(pattern does not compile: {ex_})"]
+                rep.check(not miss, "JSON", "schemas/event.json", "pattern of timestamp", "matches every shape isoformat() emits", f"the schema's pattern for `timestamp` rejects {miss[:2]}: isoformat() leaves the fraction out when the (floored) microsecond is 0, so the JSON form of every event on a whole second no longer validates", "aw_core/schemas/event.json")
+                extra = [x for x in extra if x != "pattern"]
             if k == "data" and extra:
                 # the data dict is arbitrary JSON: whatever the schema says about its members must admit every JSON value
                 why = _restricts_json(decl)
